@@ -135,6 +135,10 @@ func unpackFieldLength(byteOrder binary.ByteOrder, fieldLen int, buff []byte) (f
 }
 
 func packFieldLength(byteOrder binary.ByteOrder, fieldLen int, dataLen int64) []byte {
+	// the value must fit into the field, a truncated header would disagree with the body.
+	utils.AssertIf(dataLen < 0 || (fieldLen < 8 && dataLen >= int64(1)<<(8*uint(fieldLen))),
+		"length %d does not fit into a %d-byte length field", dataLen, fieldLen)
+
 	lengthBuff := make([]byte, fieldLen)
 	switch fieldLen {
 	case 1:
